@@ -336,6 +336,15 @@ class World:
                 if got != final:
                     r.violation('C05/replay-differs-from-cache', f'{cname}/{pn}: last message {got}, cache {final}', dict(case, param=pn))
                     return
+                # the cache entry has a time stamp too (a connection activating now would be told it): what the stream says last
+                # is what the cache holds - an announcement that is left out changes nothing in the cache
+                r.count('clause_replay_timestamp')
+                t_last = last[2][-1].get('t') if isinstance(last[2][-1], dict) else None
+                if pobj.timestamp and t_last is not None and abs(t_last - pobj.timestamp) > 1e-9:
+                    what = 'error' if pobj.readerror else 'value'
+                    r.violation(f'C05/replay-differs-from-cache/timestamp-of-the-{what}', f'{cname}/{pn}: the last message carries t={t_last!r}, the cache entry t={pobj.timestamp!r}',
+                                dict(case, param=pn))
+                    return
                 # (3) order: time stamps never decrease
                 r.count('clause_order')
                 ts = [mm[2][-1].get('t', 0) for _, mm in seq]
